@@ -61,12 +61,15 @@ def step' (s : St) (line : String) : St × String :=
   match line.trimAscii.toString.splitOn " " with
   | ["asg", id, t] =>
     match parseAsg t with
-    | some b => ({ s with blocks := (id, b) :: s.blocks.filter (·.1 != id) }, "ok")
+    | some b => ({ s with blocks := (id, b) :: (s.blocks.filter (·.1 != id)).take 3 }, "ok")   -- only the latest blocks are kept
     | none => (s, "bad-op")
   | ["scan", c, l, bid] =>
     match findMod c, findMod l, s.block bid with
     | some cfg, some log, some b =>
-      let w := wiringOf cfg log b
+      let w0 := wiringOf cfg log b
+      -- same wiring, with the output values decoded once (the scan reads each several times)
+      let tbl := w0.allOutputs.map (fun o => (o, w0.val o))
+      let w := { w0 with val := fun o => match tbl.find? (·.1 == o) with | some p => p.2 | none => w0.val o }
       let vals := ",".intercalate (w.allOutputs.map (fun o => s!"{o}={w.val o}"))
       (s, s!"vals={vals}|" ++ dump w)
     | _, _, _ => (s, "bad-op")
